@@ -10,6 +10,7 @@
 package main
 
 import (
+	"time"
 	"encoding/hex"
 	"fmt"
 	"math"
@@ -58,6 +59,7 @@ type cursor struct {
 	ptr         int64    // pointer according to the manual's semantics (harness' own arithmetic)
 	fetched     bool
 	dmlSince    bool
+	pseudo      bool                   // the cursor parameter of a user-defined aggregate
 	pendingOvf  map[string]interface{} // a RELATIVE fetch whose index+number left int64 was just executed
 }
 
@@ -178,6 +180,7 @@ type hist struct {
 	noTxn     bool
 	psGone    bool // DISPOSE PREPARE ps1 happened: evaluating a cursor FOR ps1 fails
 	cntBefore string
+	hung      bool // a statement of this history never returned: the session is abandoned
 	svGone    bool // DISPOSE VIEW sv happened: evaluating a cursor over sv fails
 }
 
@@ -196,11 +199,47 @@ func (h *hist) cnt() string { return h.getVar("cnt") }
 
 var namePool = []string{"cur", "CUR", "Cur", "c2", "C2", "kur"}
 
+// errHang: the statement did not return within the watchdog's patience
+type hangError struct{}
+
+func (hangError) Error() string { return "statement never returned" }
+
+const watchdog = 4 * time.Second
+
+// guarded runs f in its own goroutine; false: it did not return in time (the goroutine is abandoned)
+func guarded(f func()) bool {
+	done := make(chan struct{})
+	go func() {
+		defer close(done)
+		f()
+	}()
+	select {
+	case <-done:
+		return true
+	case <-time.After(watchdog):
+		return false
+	}
+}
+
+// exec: every statement of a history runs under the watchdog.  A statement that never returns (a cursor
+// left locked, …) is an observation of its own — law cursor_operation_never_returns with the history as
+// replay —, the history is abandoned and the stream goes on with a fresh session.
 func (h *hist) exec(sql string) error {
+	if h.hung {
+		return hangError{}
+	}
 	h.sql = append(h.sql, sql)
-	_, err := h.p.Exec(sql)
+	var err error
+	if !guarded(func() { _, err = h.p.Exec(sql) }) {
+		h.law("cursor_operation_never_returns", map[string]interface{}{"statement": sql, "waited_seconds": watchdog.Seconds()})
+		h.hung, h.aborted = true, true
+		hungHistories++
+		return hangError{}
+	}
 	return err
 }
+
+var hungHistories = 0
 
 func (h *hist) program() string {
 	s := h.sql
@@ -213,6 +252,9 @@ func (h *hist) program() string {
 var lawSeen = map[string]int{}
 
 func (h *hist) law(name string, c map[string]interface{}) {
+	if h.hung && name != "cursor_operation_never_returns" {
+		return // consequences of the statement that never returned
+	}
 	lawSeen[name]++
 	if lawSeen[name] > 40 { // enough witnesses of one law in the replay file; keep counting
 		h.o.Count("law_fail_not_listed:" + name)
@@ -227,6 +269,9 @@ func (h *hist) law(name string, c map[string]interface{}) {
 // errTok: csvq's error NUMBER (error_code.go: 11002 undeclared cursor, …).  hc.ErrCode reports
 // Error.Code(), which is the process return code (1 for every application error).
 func errTok(err error) string {
+	if _, ok := err.(hangError); ok {
+		return "HANG"
+	}
 	if e, ok := err.(query.Error); ok {
 		return fmt.Sprintf("E%d", e.Number())
 	}
@@ -319,7 +364,7 @@ func (h *hist) setup(fixedFile bool, fixedN int) {
 			must(h.exec("INSERT INTO t VALUES " + strings.Join(vals, ", ") + ";"))
 		}
 	}
-	must(h.exec("VAR @a, @b, @c, @d, @s, @n; DECLARE lg VIEW (a, b); DECLARE lp VIEW (t, a, b);"))
+	must(h.exec("VAR @a, @b, @c, @d, @e, @s, @n; DECLARE lg VIEW (a, b); DECLARE lp VIEW (t, a, b);"))
 	must(h.exec(fmt.Sprintf("VAR @cnt := 0; PREPARE ps0 FROM '%s'; PREPARE ps1 FROM '%s'; DECLARE sv VIEW (id, v); INSERT INTO sv VALUES (1, 's'), (2, 't'), (3, 'u'); DECLARE bump FUNCTION () AS BEGIN @cnt := @cnt + 1; RETURN @cnt; END;", ps0Text, ps1Text)))
 	h.o.Case("c16.reset", "ok")
 }
@@ -448,9 +493,29 @@ func (h *hist) offset(n int) int64 {
 	return int64(g.Intn(n + 1))
 }
 
+// spellInt: an expression FetchCursor evaluates to v (Evaluate, then value.ToInteger: integers, numeric strings,
+// floats and float strings truncated toward zero)
 func spellInt(g *hc.Gen, v int64) string {
 	if v == math.MinInt64 || g.Intn(6) == 0 {
 		return fmt.Sprintf("'%d'", v) // value.ToInteger parses numeric strings exactly
+	}
+	if v > -1000 && v < 1000 {
+		sgn, a := "", v
+		if v < 0 {
+			sgn, a = "-", -v
+		}
+		switch g.Intn(8) {
+		case 0:
+			return fmt.Sprintf("(%d + 1) - 1", v)
+		case 1:
+			return fmt.Sprintf("%s%d.7", sgn, a) // float, truncated toward zero
+		case 2:
+			return fmt.Sprintf("'%s%d.9'", sgn, a) // float spelled as a string
+		case 3:
+			return fmt.Sprintf("%d * 1", v)
+		case 4:
+			return fmt.Sprintf("' %d '", v) // padded numeric string
+		}
 	}
 	if v < 0 {
 		return fmt.Sprintf("-%d", -v)
@@ -646,7 +711,8 @@ func joinPrefixed(rows []string) string {
 }
 
 func (h *hist) stepClose() {
-	name := h.pickName(true)
+	// also redundant CLOSEs: of a cursor that is closed already or was never opened
+	name := h.pickName(h.g.Intn(5) < 3)
 	err := h.exec(fmt.Sprintf("CLOSE %s;", name))
 	impl := "ok"
 	if err != nil {
@@ -1294,6 +1360,12 @@ func (h *hist) run(steps int) int {
 				h.stepDispose()
 			case w < 90:
 				h.stepSource(-1)
+			case w < 92:
+				h.stepFetchInto()
+			case w < 93:
+				h.stepWhileInto()
+			case w < 95:
+				structured(h.stepAgg)
 			default:
 				h.stepDML()
 			}
@@ -1305,7 +1377,7 @@ func (h *hist) run(steps int) int {
 }
 
 // scripted histories (run first, whatever the seed): the situations the property names explicitly
-func scripted(g *hc.Gen, o *hc.Out, dir string, seed int64) int {
+func scripted(g *hc.Gen, o *hc.Out, dir string, seed int64) (int, string) {
 	total := 0
 	mx, mn := int64(math.MaxInt64), int64(math.MinInt64)
 	type st struct {
@@ -1334,6 +1406,12 @@ func scripted(g *hc.Gen, o *hc.Out, dir string, seed int64) int {
 		{false, 3, qAll, []st{{"open", 0}, {"loop_dispose", 0}, {"isopen", 0}, {"declare", 0}, {"open", 0}, {"loop_dispose", 1}, {"isopen", 0}}},
 		{true, 3, qAll, []st{{"open", 0}, {"loop_shadow", 0}, {"inrange", 0}, {"next", 0}}},
 		{false, 5, qAll, []st{{"open", 0}, {"loop_close", 0}, {"isopen", 0}}},
+		// the number of INTO / WHILE variables; an aggregate's pseudo cursor
+		{false, 4, qAll, []st{{"open", 0}, {"fetchinto", 0}, {"next", 0}, {"fetchinto", 0}, {"whileinto", 0}, {"next", 0}, {"whileinto", 0}, {"agg", 0}, {"next", 0}, {"agg", 0}}},
+		{true, 3, qOneCol, []st{{"fetchinto", 0}, {"open", 0}, {"whileinto", 0}, {"fetchinto", 0}, {"agg", 0}, {"while", 0}}},
+		// redundant CLOSE: of a never-opened cursor, of a closed one, repeatedly — and the cursor still works afterwards
+		{false, 3, qAll, []st{{"close", 0}, {"open", 0}, {"next", 0}, {"close", 0}, {"close", 0}, {"close", 0}, {"open", 0}, {"next", 0}, {"count", 0}, {"close", 0}, {"next", 0}, {"while", 0}, {"open", 0}, {"while", 0}}},
+		{true, 2, qStmt1, []st{{"close", 0}, {"close", 0}, {"open", 0}, {"while", 0}, {"close", 0}, {"dispose", 0}, {"close", 0}}},
 		// cursors FOR a prepared statement: OPEN of an open one (new USING value) is refused and rewinds nothing
 		{false, 5, qStmt1, []st{{"open", 0}, {"next", 0}, {"open", 0}, {"next", 0}, {"count", 0}, {"close", 0}, {"open", 0}, {"while", 0}, {"open", 0}}},
 		{true, 4, qStmt0, []st{{"open", 0}, {"next", 0}, {"open", 0}, {"next", 0}, {"while", 0}}},
@@ -1347,6 +1425,9 @@ func scripted(g *hc.Gen, o *hc.Out, dir string, seed int64) int {
 			{"next", 0}, {"dispose", 0}, {"next", 0}, {"open", 0}, {"close", 0}, {"dispose", 0}, {"isopen", 0}, {"fetchbad", 0}}},
 	}
 	for k, sc := range scripts {
+		if hungHistories >= 3 {
+			break
+		}
 		h := &hist{g: g, o: o, dir: dir, seedTag: fmt.Sprintf("scripted history=%d", k), noTxn: true}
 		h.setup(sc.file, sc.n)
 		h.stepDeclare("cur", sc.q)
@@ -1379,6 +1460,14 @@ func scripted(g *hc.Gen, o *hc.Out, dir string, seed int64) int {
 				h.stepStatus(2)
 			case "fetchbad":
 				h.stepFetchBad()
+			case "fetchinto":
+				h.stepFetchInto()
+			case "whileinto":
+				h.stepWhileInto()
+			case "agg":
+				h.forceName = ""
+				h.stepAgg()
+				h.forceName = "cur"
 			case "src_ps":
 				h.stepSource(0)
 			case "src_sv":
@@ -1407,12 +1496,30 @@ func scripted(g *hc.Gen, o *hc.Out, dir string, seed int64) int {
 			}
 			h.checkInv()
 		}
-		h.p.Close()
-		_ = os.Remove(filepath.Join(dir, "t.csv"))
+		dir = endHistory(h, os.Getenv("VERIF_SCRATCH"), dir)
 		o.Count("histories_scripted")
 	}
-	return total
+	return total, dir
 }
+
+// endHistory releases the session (under the watchdog too).  After a hang the scratch directory may hold
+// locks of the abandoned session: the next history gets a fresh one.
+func endHistory(h *hist, base, dir string) string {
+	ok := guarded(h.p.Close)
+	_ = os.Remove(filepath.Join(dir, "t.csv"))
+	if h.hung || !ok {
+		if base == "" {
+			base = os.TempDir()
+		}
+		d, err := os.MkdirTemp(base, "c16-")
+		must(err)
+		extraDirs = append(extraDirs, d)
+		return d
+	}
+	return dir
+}
+
+var extraDirs []string
 
 func main() {
 	hc.Main(func(seed int64, n int, out string, args []string) {
@@ -1426,7 +1533,13 @@ func main() {
 		dir, err := os.MkdirTemp(base, "c16-")
 		must(err)
 		defer os.RemoveAll(dir)
-		total, k := scripted(g, o, dir, seed), 0
+		defer func() {
+			for _, d := range extraDirs {
+				os.RemoveAll(d)
+			}
+		}()
+		total, k := 0, 0
+		total, dir = scripted(g, o, dir, seed)
 		for total < n {
 			h := &hist{g: g, o: o, dir: dir, seedTag: fmt.Sprintf("seed=%d history=%d", seed, k)}
 			h.setup(false, -1)
@@ -1435,8 +1548,11 @@ func main() {
 				steps = n - total
 			}
 			total += h.run(steps) + 1
-			h.p.Close()
-			_ = os.Remove(filepath.Join(dir, "t.csv"))
+			dir = endHistory(h, base, dir)
+			if hungHistories >= 3 {
+				o.Count("stream_cut_short_after_hangs")
+				break
+			}
 			k++
 			o.Count("histories")
 			o.Count("table:" + map[bool]string{true: "file", false: "temporary"}[h.file])
